@@ -43,6 +43,25 @@ def acc_push_bad(ctx, acc, what='str'):
     """A push that cannot succeed (the producer handed over something that
     is not a frame): it raises, and must count for nothing."""
     a = val(ctx, acc)
+    if what in ('complex', 'colour'):
+        # frame-like, and good enough for the first steps of the update
+        m = a.mean()
+        if not hasattr(m, 'shape') or np.ndim(m) == 0:
+            # nothing accumulated yet: anything numeric would be a valid
+            # first frame
+            a.push('not a frame')
+            return None
+        if what == 'complex':
+            bad = m * (1 + 1j)
+        else:
+            import xarray as xr
+            if isinstance(m, xr.DataArray):
+                bad = xr.concat([m, m * 2], dim='illumination')
+            else:
+                bad = np.stack([np.asarray(m), np.asarray(m) * 2], axis=-1) \
+                    if hasattr(m, 'shape') else 'not a frame'
+        a.push(bad)
+        return None
     a.push({'str': 'not a frame', 'none': None, 'obj': object()}[what])
     return None
 
